@@ -7,7 +7,7 @@ Executable model of chempy's formula *presentation* AS IT IS (property C13):
 * `chempy/chemistry.py`: `Substance.from_formula` (the three names + composition), `Species.from_formula` (phase index,
   suffixes = `tuple(phases) + ("(aq)",)`);
 * `chempy/printing/{string,tex,pretty,web}.py`: `_Reaction_parts` / `_Reaction_str` for the four printers
-  (names through `_print_Substance`, coefficient omitted iff 1, zero coefficients filtered, that printer's arrow).
+  (names through `_print_Substance`, `int` / `Fraction` coefficients, omitted iff 1, zero coefficients filtered, that printer's arrow).
 
 plus the SPECIFICATION side of C13:
 
@@ -100,7 +100,7 @@ inductive FErr
   | charge
   /-- `KeyError` of a `_unicode_sub` / `_unicode_sup` lookup -/
   | key
-  /-- `UnboundLocalError`: the charge token parses to 0 (`H+0`), neither `chg < 0` nor `chg > 0` binds `token` -/
+  /-- `UnboundLocalError`: `token` unbound (a charge 0; no longer reachable since `sup(token)` is guarded by `chg != 0`) -/
   | unbound
 deriving DecidableEq, Repr
 
@@ -133,12 +133,14 @@ def fmtCharge (F : Fmt) (string : Str) : Option Str → Except FErr Str
     match getCharge c with
     | .error _ => .error .charge
     | .ok chg =>
-      match chargeToken chg with
-      | none => .error .unbound
-      | some tok =>
-        match F.sup tok with
-        | none => .error .key
-        | some t => .ok (string ++ t)
+      if chg = 0 then .ok string          -- `if chg != 0: string += sup(token)`: a written zero charge gets no superscript
+      else
+        match chargeToken chg with
+        | none => .error .unbound
+        | some tok =>
+          match F.sup tok with
+          | none => .error .key
+          | some t => .ok (string ++ t)
 
 /-- `"".join(prefixes[x] for x in parts[2])`: the stripped prefixes are looked up in the dict (`none` = KeyError; it cannot
     happen, the stripped prefixes are keys of that dict) -/
@@ -317,12 +319,16 @@ def printKey (p : Printer) (substances : List (Str × Substance)) (k : Str) : St
   | some s => p.nameOf s
   | none => k
 
+/-- `str(v)` of an `int` or `fractions.Fraction` coefficient: `-n`, `n/d` (a Fraction with denominator 1 prints like the int) -/
+def coefStr (q : Rat) : Str :=
+  (if q.num < 0 then ['-'] else []) ++ (natStr q.num.natAbs ++ (if q.den = 1 then [] else '/' :: natStr q.den))
+
 /-- one term: `(coeff_fmt(v) + space) if v != 1 else ""` then the name -/
-def printTerm (p : Printer) (substances : List (Str × Substance)) (kv : Str × Nat) : Str :=
-  (if kv.2 ≠ 1 then natStr kv.2 ++ p.coeffSpace else []) ++ printKey p substances kv.1
+def printTerm (p : Printer) (substances : List (Str × Substance)) (kv : Str × Rat) : Str :=
+  (if kv.2 ≠ 1 then coefStr kv.2 ++ p.coeffSpace else []) ++ printKey p substances kv.1
 
 /-- one side: `filter(itemgetter(1), d.items())` drops zero coefficients; stored (dict) order is kept -/
-def printSide (p : Printer) (substances : List (Str × Substance)) (d : List (Str × Nat)) : List Str :=
+def printSide (p : Printer) (substances : List (Str × Substance)) (d : List (Str × Rat)) : List Str :=
   (d.filter (fun kv => kv.2 ≠ 0)).map (printTerm p substances)
 
 def joinStrs (sep : Str) : List Str → Str
@@ -332,7 +338,7 @@ def joinStrs (sep : Str) : List Str → Str
 
 /-- `Reaction.string/latex/unicode/html(substances, with_param=False, with_name=False)` without inactive groups -/
 def printReaction (p : Printer) (equilibrium : Bool) (substances : List (Str × Substance))
-    (reac prod : List (Str × Nat)) : Str :=
+    (reac prod : List (Str × Rat)) : Str :=
   joinStrs Printing.termJoin (printSide p substances reac) ++ (p.around.1 ++ (p.arrow equilibrium ++ (p.around.2 ++
     joinStrs Printing.termJoinProd (printSide p substances prod))))
 
@@ -379,15 +385,16 @@ def presParts (P : Pres) : List Part → Str
   | [] => []
   | p :: ps => presTerms P p.terms ++ presRest P ps
 
-/-- magnitude-then-sign, magnitude 1 omitted (a magnitude 0 has no presentation: the real code raises) -/
+/-- magnitude-then-sign, magnitude 1 omitted (used for a non-zero charge) -/
 def chargeTok (c : Charge) : Str :=
   (match c.mag with
    | none => []
    | some ds => if digitsVal ds = 1 then [] else natStr (digitsVal ds)) ++ [if c.neg then '-' else '+']
 
+/-- the charge superscript; a charge written with value zero (`+0`) is not shown -/
 def presCharge (P : Pres) : Option Charge → Str
   | none => []
-  | some c => P.sup (chargeTok c)
+  | some c => if c.val = 0 then [] else P.sup (chargeTok c)
 
 /-- the presentation of a formula: mapped prefixes, presented parts, charge superscript, suffix verbatim -/
 def present (P : Pres) (f : Formula) : Str :=
@@ -452,10 +459,13 @@ def canonN : Option Str → Option Str
 
 def canonPart (p : Part) : Part := { p with n := canonN p.n }
 def canonCharge (c : Charge) : Charge := { c with mag := canonN c.mag }
+/-- a charge written with value zero is not presented at all -/
+def canonChargeOpt (c : Charge) : Option Charge := if c.val = 0 then none else some (canonCharge c)
 
-/-- the formula the presentations determine: separator written `..`, hydrate counts and charge magnitude normalised -/
+/-- the formula the presentations determine: separator written `..`, hydrate counts and charge magnitude normalised,
+    a zero charge token dropped -/
 def canon (f : Formula) : Formula :=
-  { f with sep := .dots, parts := f.parts.map canonPart, charge := f.charge.map canonCharge }
+  { f with sep := .dots, parts := f.parts.map canonPart, charge := f.charge.bind canonChargeOpt }
 
 /-! ### the inverse presentation maps -/
 
